@@ -2246,6 +2246,40 @@ NAMED_ENGINE_PROBES = [
 ]
 
 
+# generators are outside the Coq core; a yield inside each loop kind must suspend and resume THAT loop (engine only,
+# expected output = PHP's).  /repo c2b40ec: a yield inside a foreach produced only the first element.
+GEN_DECL = ('function kv($a) { foreach ($a as $k => $v) { yield $k => $v; } } function vs($a) { foreach ($a as $v) { yield $v; } } '
+            'function show($g) { foreach ($g as $k => $v) { echo "$k=$v;"; } } ')
+GENERATOR_ENGINE_PROBES = [
+    ("foreach-list-kv", GEN_DECL + 'show(kv([10, 20, 30]));', "0=10;1=20;2=30;"),
+    ("foreach-assoc-kv", GEN_DECL + 'show(kv(["a" => 1, "b" => 2, "c" => 3]));', "a=1;b=2;c=3;"),
+    ("foreach-list-v", GEN_DECL + 'show(vs([10, 20, 30]));', "0=10;1=20;2=30;"),
+    ("foreach-assoc-v", GEN_DECL + 'show(vs(["a" => 1, "b" => 2]));', "0=1;1=2;"),
+    ("foreach-empty", GEN_DECL + 'show(kv([])); echo "|"; show(kv(["x" => 1]));', "|x=1;"),
+    ("for", 'function g() { for ($i = 0; $i < 3; $i++) { yield $i; } yield 9; } foreach (g() as $v) { echo "$v;"; }', "0;1;2;9;"),
+    ("while", 'function g() { $i = 0; while ($i < 3) { yield $i; $i++; } } foreach (g() as $v) { echo "$v;"; }', "0;1;2;"),
+    ("body-after-yield", 'function g($a) { echo "[s]"; foreach ($a as $k => $v) { echo "<$k>"; yield $v; echo "($k)"; } echo "[e]"; } '
+                         'foreach (g(["a" => 1, "b" => 2]) as $v) { echo "$v;"; } echo "|"; foreach (g([7, 8]) as $v) { echo "$v;"; }',
+     "[s]<a>1;(a)<b>2;(b)[e]|[s]<0>7;(0)<1>8;(1)[e]"),
+    ("two-yields-continue-break", 'function g($a) { foreach ($a as $v) { if ($v == 2) { continue; } if ($v == 4) { break; } yield $v; yield $v * 10; } yield 99; } '
+                                  'foreach (g([1, 2, 3, 4, 5]) as $v) { echo "$v;"; } echo "|"; foreach (g(["p" => 1, "q" => 2, "r" => 3, "s" => 4]) as $v) { echo "$v;"; }',
+     "1;10;3;30;99;|1;10;3;30;99;"),
+    ("nested-foreach", 'function g() { foreach ([1, 2] as $a) { foreach (["x" => 1, "y" => 2] as $k => $b) { yield "$a$k"; } echo "."; } } foreach (g() as $v) { echo "$v;"; }',
+     "1x;1y;.2x;2y;."),
+    ("nested-list-in-assoc", 'function g() { foreach (["p" => 1, "q" => 2] as $k => $a) { foreach ([5, 6] as $b) { yield $k . $b; } } } foreach (g() as $v) { echo "$v;"; }',
+     "p5;p6;q5;q6;"),
+    ("loop-var-kept", 'function g($a) { foreach ($a as $v) { $v = $v + 100; yield $v; echo "[$v]"; } } foreach (g([1, 2]) as $v) { echo "$v;"; }', "101;[101]102;[102]"),
+    ("auto-keys", 'function k() { yield "a" => 1; yield 2; yield 3; } function f() { for ($i = 0; $i < 2; $i++) { yield $i * 5; } yield 9; } ' + GEN_DECL + 'show(k()); show(f());',
+     "a=1;0=2;1=3;0=0;1=5;2=9;"),
+    ("while-continue-break", 'function w() { $i = 0; while (true) { $i++; if ($i == 2) { continue; } if ($i > 4) { break; } yield $i; echo "."; } yield 7; } ' + GEN_DECL + 'show(w());',
+     "0=1;.1=3;.2=4;.3=7;"),
+    ("foreach-in-while", 'function ww($a) { $i = 0; while ($i < 2) { foreach ($a as $k => $v) { yield "$i$k"; } $i++; } } ' + GEN_DECL + 'show(ww(["x" => 1, "y" => 2]));',
+     "0=0x;1=0y;2=1x;3=1y;"),
+    ("two-generators", GEN_DECL + '$x = kv([1, 2]); $y = kv(["a" => 8, "b" => 9]); foreach ($x as $k => $v) { echo "$k=$v;"; foreach ($y as $k2 => $v2) { echo "$k2=$v2;"; } }',
+     "0=1;a=8;b=9;1=2;"),
+]
+
+
 def builtin_arity_sources():
     out = []
     for name, n, call in BUILTIN_MIN_ARITY:
@@ -2430,6 +2464,16 @@ def main(ck):
                 ck.violation("named-args:%s" % name, {"case": {"named_probe": name}, "php": src, "impl_out": o, "expected_out": exp,
                              "clause": "named arguments are bound by parameter name (engine-only probe, outside the Coq core)"})
     ck.cov["named_argument_engine_probes"] = len(named)
+    gens = [] if ck.replay and not (json.load(open(ck.replay)).get("case") or {}).get("generator_probe") else GENERATOR_ENGINE_PROBES
+    if ck.replay and gens:
+        gens = [r for r in gens if r[0] == json.load(open(ck.replay))["case"]["generator_probe"]]
+    if gens:
+        gsrcs, gres = run_impl(binary, None, ck, srcs=["<?php\n" + r[1] + "\n" for r in gens])
+        for (name, code, exp), src, o in zip(gens, gsrcs, gres):
+            if o.get("outcome") != "ok" or o.get("out") != exp:
+                ck.violation("generator:%s" % name, {"case": {"generator_probe": name}, "php": src, "impl_out": o, "expected_out": exp,
+                             "clause": "a yield inside a loop suspends and resumes that loop (engine-only probe, generators are outside the Coq core)"})
+    ck.cov["generator_engine_probes"] = len(gens)
 
     # ---- measured coverage
     dist = {}
